@@ -211,6 +211,28 @@ class Bench:
         return self.snap_items(self.zone.iterate_rdatasets())
 
 
+COMMIT_FAULT = {"armed": False, "fired": 0}
+
+
+def install_commit_fault():
+    """Fault point: building the immutable version at commit fails (allocation failure)."""
+    dns = _dns
+    for cls in (dns.zone.ImmutableVersion, dns.btreezone.ImmutableVersion):
+        if getattr(cls, "_verif_commit_fault", False):
+            continue
+        orig = cls.__init__
+
+        def init(self, *a, _orig=orig, **kw):
+            if COMMIT_FAULT["armed"]:
+                COMMIT_FAULT["armed"] = False
+                COMMIT_FAULT["fired"] += 1
+                raise MemoryError("injected allocation failure while building the immutable version at commit")
+            return _orig(self, *a, **kw)
+
+        cls.__init__ = init
+        cls._verif_commit_fault = True
+
+
 class Planned(Exception):
     """Exception injected by the simulator (abort point / hook fault)."""
 
